@@ -11,9 +11,10 @@ open GmQuic.Cost
 
 /-! ## packet number arrival -/
 
-/-- **handler_cost_bounded (packet number)**: at most `maxPnGap + 1` records are appended, whatever the 1–4 byte
-packet number decodes to (fixed `decode_pn`: further ahead ⇒ `TooLarge`, the packet is dropped). -/
-theorem pn_cost_bounded (s : RcvdJournal.State) (e : Pn.PacketNumber) (elic : Bool) (pto : Nat) :
+/-- With `repo_patches/experimental-C04-pn-gap.diff` (NOT in the fix set: it changes `decode_pn`, which C07 / C06 / C10
+model without the cap): at most `maxPnGap + 1` records are appended, whatever the 1–4 byte packet number decodes to
+(further ahead ⇒ `TooLarge`, the packet is dropped). -/
+theorem pn_cost_bounded_with_gap_patch (s : RcvdJournal.State) (e : Pn.PacketNumber) (elic : Bool) (pto : Nat) :
     (handlePn true s e elic pto).2.total ≤ maxPnGap + 2 := by
   unfold handlePn
   cases Pn.decode e s.largest with
@@ -38,15 +39,15 @@ theorem pn_cost_bounded (s : RcvdJournal.State) (e : Pn.PacketNumber) (elic : Bo
            simp only [List.length_append, List.length_replicate, List.length_cons, List.length_nil, List.length_set]
            omega)
 
-/-- a dropped packet leaves no trace: the outcome carries no state -/
-theorem pn_far_ahead_dropped (s : RcvdJournal.State) (e : Pn.PacketNumber) (elic : Bool) (pto pn : Nat)
+/-- (same patch) a dropped packet leaves no trace: the outcome carries no state -/
+theorem pn_far_ahead_dropped_with_gap_patch (s : RcvdJournal.State) (e : Pn.PacketNumber) (elic : Bool) (pto pn : Nat)
     (hd : Pn.decode e s.largest = .ok pn) (ho : s.offset ≤ pn) (h : pn - s.largest > maxPnGap) :
     handlePn true s e elic pto = (.drop, Cost.one) := by
   unfold handlePn; simp only [hd]
   have : ¬ pn < s.offset := by omega
   simp [this, h]
 
-/-- records appended by the UNCHANGED code for a number at or above the largest seen -/
+/-- records appended by the code AS IT IS for a number at or above the largest seen -/
 theorem pn_old_gap_fill (s : RcvdJournal.State) (e : Pn.PacketNumber) (elic : Bool) (pto pn : Nat)
     (hd : Pn.decode e s.largest = .ok pn) (h : s.largest ≤ pn) (hv : pn ≤ Codec.varintMax) :
     (handlePn false s e elic pto).2.cells = pn - s.largest + 1 := by
@@ -69,9 +70,42 @@ theorem pn_old_gap_fill (s : RcvdJournal.State) (e : Pn.PacketNumber) (elic : Bo
   simp only [RcvdJournal.State.largest, List.length_append, List.length_replicate, List.length_cons, List.length_nil]
   omega
 
+/-- **handler_cost_bounded (packet number) — partial**: the code as it is, under exactly the missing hypothesis:
+the number decodes at most `g` beyond the largest seen (`g` can be 2^31 for a 4-byte packet number). -/
+theorem pn_cost_bounded_partial (s : RcvdJournal.State) (e : Pn.PacketNumber) (elic : Bool) (pto g : Nat)
+    (hg : ∀ pn, Pn.decode e s.largest = .ok pn → pn - s.largest ≤ g) :
+    (handlePn false s e elic pto).2.total ≤ g + 2 := by
+  unfold handlePn
+  cases hd : Pn.decode e s.largest with
+  | panic _ => simp [Cost.total, Cost.one]
+  | ok pn =>
+    have hg' := hg pn hd
+    simp only
+    split; · simp [Cost.total, Cost.one]
+    split; · simp [Cost.total, Cost.one]
+    split; · simp [Cost.total, Cost.one]
+    cases ho : RcvdJournal.onRcvdPn s pn elic pto with
+    | none => simp [Cost.total, Cost.one]
+    | some s' =>
+      simp only [Cost.total]
+      unfold RcvdJournal.onRcvdPn at ho
+      simp only [RcvdJournal.State.largest] at *
+      repeat' split at ho
+      all_goals first
+        | (cases ho; done)
+        | (cases ho
+           simp only [List.length_append, List.length_replicate, List.length_cons, List.length_nil, List.length_set]
+           omega)
+
+example : ∀ pn, Pn.decode (.u8 5) ({} : RcvdJournal.State).largest = .ok pn → pn - ({} : RcvdJournal.State).largest ≤ 5 := by
+  intro pn h
+  have : Pn.decode (.u8 5) ({} : RcvdJournal.State).largest = .ok 5 := by decide +kernel
+  rw [this] at h; cases h; decide
+
 theorem cells_le_total (c : Cost) : c.cells ≤ c.total := Nat.le_add_left _ _
 
-/-- the unchanged code is NOT bounded by `maxPnGap`: one 4-byte packet number on a fresh journal appends 2^31+1 records -/
+/-- the code as it is (NOT fixed, known finding) is not bounded by `maxPnGap`: one 4-byte packet number on a fresh
+journal appends 2^31+1 records -/
 theorem pn_cost_bounded_fails :
     ¬ (∀ (s : RcvdJournal.State) (e : Pn.PacketNumber) (elic : Bool) (pto : Nat),
         (handlePn false s e elic pto).2.total ≤ maxPnGap + 2) := by
